@@ -198,6 +198,9 @@ pub struct Interp<'a> {
     pub sites: Vec<Site>,
     /// number of failures (of any kind) met during interpretation
     pub failures: usize,
+    /// the most recent `Why` that describes a failure origin (the one that propagates when the
+    /// top-level call fails)
+    pub last_fail: Option<Why>,
     pub caught: usize,
     pub max_depth: usize,
     pub ever_written: BTreeMap<String, BTreeSet<Vec<u8>>>,
@@ -220,6 +223,7 @@ impl<'a> Interp<'a> {
             whys: vec![],
             sites: vec![],
             failures: 0,
+            last_fail: None,
             caught: 0,
             max_depth: 0,
             ever_written: BTreeMap::new(),
@@ -228,6 +232,9 @@ impl<'a> Interp<'a> {
 
     fn why(&mut self, w: Why) {
         let pos = self.trace.len();
+        if matches!(w, Why::Overdraft | Why::AfterMalformed | Why::RegistryReject | Why::Unauthorized) {
+            self.last_fail = Some(w.clone());
+        }
         self.whys.push((pos, w));
     }
 
@@ -596,6 +603,7 @@ impl<'a> Interp<'a> {
         );
         if fail {
             self.failures += 1;
+            self.last_fail = Some(Why::Plain);
             return Err(());
         }
         if bad {
@@ -715,6 +723,7 @@ impl<'a> Interp<'a> {
                 }
                 if self.bank_send(sender, to_address, amount).is_err() {
                     self.failures += 1;
+                    self.last_fail = Some(Why::Plain);
                     return Err(());
                 }
                 let amt = amount.iter().map(|c| format!("{}{}", c.amount, c.denom)).collect::<Vec<_>>().join(",");
@@ -726,6 +735,7 @@ impl<'a> Interp<'a> {
                 }
                 if self.bank_debit(sender, amount).is_err() {
                     self.failures += 1;
+                    self.last_fail = Some(Why::Plain);
                     return Err(());
                 }
                 Ok(Resp { events: vec![], data: None })
@@ -737,6 +747,7 @@ impl<'a> Interp<'a> {
                 self.st.xmarks.insert(x.tag, sender.to_string());
                 if x.fail {
                     self.failures += 1;
+                    self.last_fail = Some(Why::Plain);
                     return Err(());
                 }
                 Ok(Resp { events: vec![Event::new("xmod").add_attribute("tag", x.tag.to_string())], data: Some(format!("x{}", x.tag).into_bytes()) })
